@@ -1,6 +1,6 @@
 import FlytModel.Generated.IR
 import FlytModel.Expected.IR
-/-! The translation of `BaseNode_Prep` from the CURRENT source is, term for term, the IR the refinement theorems are about. -/
+/-! The translation of `BaseNode_Prep` from the CURRENT source is, term for term, the expected IR. -/
 namespace Flyt.Tie
 theorem BaseNode_Prep : Flyt.Generated.IR.BaseNode_Prep = Flyt.Expected.IR.BaseNode_Prep := rfl
 end Flyt.Tie
